@@ -49,6 +49,9 @@ for p in PROPS:
         })
     else:
         na.append({"property_id": p, "reason": "check under construction in this session (not a statement about applicability)"})
+hooks["source_commits"] = ["29fd32e"]
+hooks["add_only"] = True
+hooks["baseline_off_cmd"] = "cd /repo && go test -vet=off -count=1 ./..."
 m["checks"] = checks
 m["not_applicable"] = na
 m["setup_cmd"] = "bin/setup"
